@@ -1269,4 +1269,5 @@ DEFAULT_BUILTINS.update({
     "repr": lambda i, v: repr(v) if isinstance(v, (int, str, float, bool, type(None))) else SV(i.str_of(v)),
     "True": True, "False": False, "None": None,
     "super": lambda i: i.do_super(),
+    "vars": lambda i, *a: {},
 })
